@@ -22,6 +22,7 @@ import pkgutil
 from .. import catalogue as cat
 from ..build import World, make, observe
 from ..common import same_obs, short
+from ..terms import walk
 
 ID = "C18"
 LEVEL = "exploration"
@@ -90,6 +91,7 @@ class Counters:
         self.cache = {"get": 0, "set": 0, "exists": 0}
         self.logged = 0
         self.option_values = 0  # Option evaluations that obtained a value (from the options or from the default)
+        self.logged_calls = 0  # evaluations of Logged nodes
         self._undo = []
 
     def install(self):
@@ -118,9 +120,12 @@ class Counters:
     def _wrap_attr(self, c, a, orig, op):
         me = self
         is_option_eval = c.__name__ == "Option" and op == "evaluate"
+        is_logged_eval = c.__name__ == "Logged" and op == "evaluate"
 
         def counted(self_, *args, **kw):
             me.calls[op].append(id(self_))
+            if is_logged_eval:
+                me.logged_calls += 1
             if not is_option_eval:
                 return orig(self_, *args, **kw)
             try:
@@ -150,6 +155,7 @@ class Counters:
         self.cache = {"get": 0, "set": 0, "exists": 0}
         self.logged = 0
         self.option_values = 0
+        self.logged_calls = 0
 
     def uninstall(self):
         for u in reversed(self._undo):
@@ -259,7 +265,17 @@ def check_term(label, term, dicts, res, counters):
         reported.add(kind)
         fails.append({"sig": f"C18|{kind}|{label}|{o!r}", "what": f"{kind}: {label} under {o!r}", "detail": d + " term=" + short(term, 300), "case": ("one", label, term, dicts)})
 
+    variants = []
     for o in dicts:
+        variants.append((o, False))
+    for o in dicts[:2]:
+        o2 = copy.deepcopy(o)
+        o2["LABREA"] = {"LOGGING": {"DISABLED": True}}
+        variants.append((o2, True))
+    uses_all = any(n[0] == "all" for n in walk(term))
+    for o, switch_on in variants:
+        if switch_on and uses_all:
+            continue
         # reference run: no handlers
         w0, obj0 = make(term, "cached")
         base = [observe(w0, th) for _, th in run_ops(obj0, o, w0)]
@@ -295,8 +311,13 @@ def check_term(label, term, dicts, res, counters):
                 ntv = len(seen.get("TypeValidationRequest", []))
                 if ntv != counters.option_values:
                     fail("option-type-check-not-issued-as-a-request", o, f"[{opname}] {counters.option_values} option values were obtained, {ntv} TypeValidationRequests seen")
-                if counters.logged != len(seen.get("LogRequest", [])):
+                if counters.logged != len(seen.get("LogRequest", [])) and not switch_on:
                     fail("log-emission-bypassed-the-runtime", o, f"[{opname}] {counters.logged} records emitted, {len(seen.get('LogRequest', []))} LogRequests seen")
+                # every evaluation of a Logged node issues its LogRequest - also when the option switch
+                # tells the default handler to drop it
+                nlogged = counters.logged_calls
+                if "inside" not in opname and nlogged != len(seen.get("LogRequest", [])):
+                    fail("log-request-not-issued", o, f"[{opname}] {nlogged} Logged nodes were evaluated, {len(seen.get('LogRequest', []))} LogRequests seen (LABREA.LOGGING.DISABLED={switch_on})")
         res["classes"].update(rec.classes)
     return fails
 
